@@ -1168,7 +1168,7 @@ Proof.
   - intros x Hx [y [Hy Hlt]]. apply in_app_or in Hx. destruct Hx as [Hx|[<-|[<-|[]]]]; [|lia|].
     + specialize (Hc x e0 Hx (or_introl eq_refl)). lia.
     + apply in_app_or in Hy. destruct Hy as [Hy|[<-|[<-|[]]]]; try lia.
-      specialize (Hc y x Hy (or_intror (or_introl eq_refl))). lia.
+      specialize (Hc y e Hy (or_intror (or_introl eq_refl))). lia.
 Qed.
 
 Lemma highp_spec : forall ls fl hi exhi, LS ls -> (forall k, FL ls k (fl k)) ->
@@ -1193,8 +1193,8 @@ Proof.
            rewrite Em in Hss. destruct (penult_high _ _ _ Hss) as [P1 P2].
            exists e0. split; [|split].
            ++ unfold entry. simpl. rewrite split_nth_P. apply nth_error_last.
-           ++ simpl. rewrite Em. auto.
-           ++ simpl. rewrite Em. auto.
+           ++ unfold Hpred. rewrite Em. auto.
+           ++ unfold Hpred. rewrite Em. auto.
       * clear IHl. rewrite app_length. simpl length. rewrite Nat.add_1_r. simpl Nat.ltb. cbv iota.
         assert (Em: concat (A ++ [(l ++ [e0]) ++ [e]]) = (concat A ++ l) ++ [e0; e]).
         { rewrite !concat_app. simpl. rewrite !app_nil_r, <- !app_assoc. reflexivity. }
@@ -1202,8 +1202,8 @@ Proof.
         exists e0. split; [|split].
         ++ unfold entry. simpl. rewrite split_nth. rewrite Nat.sub_0_r.
            rewrite <- app_assoc. apply nth_error_mid.
-        ++ simpl. rewrite Em. auto.
-        ++ simpl. rewrite Em. auto.
+        ++ unfold Hpred. rewrite Em. auto.
+        ++ unfold Hpred. rewrite Em. auto.
     + exists e. split; [|split].
       * unfold entry. simpl. rewrite split_nth. apply nth_error_mid.
       * simpl. auto.
@@ -1213,5 +1213,546 @@ Proof.
         apply in_app_or in Hx. destruct Hx as [Hx|[<-|[]]]; [|lia].
         specialize (Hc x e Hx (or_introl eq_refl)). lia.
 Qed.
+
+Definition ends_spec (ls : leafseq) (L H : Z -> Prop) (r : option ((nat * nat) * (nat * nat))) : Prop :=
+  match r with
+  | None => forall x, In x (concat ls) -> ~ (L (fst x) /\ H (fst x))
+  | Some (lp, hp) =>
+    exists el eh, entry ls lp = Some el /\ entry ls hp = Some eh /\ fst el <= fst eh /\
+      forall x, In x (concat ls) -> (L (fst x) /\ H (fst x) <-> fst el <= fst x <= fst eh)
+  end.
+
+Lemma ends_ls_spec : forall ls fl lo hi exlo exhi, LS ls -> (forall k, FL ls k (fl k)) ->
+  ends_spec ls (Lpred (concat ls) lo exlo) (Hpred (concat ls) hi exhi)
+            (ends_ls ls fl lo hi exlo exhi).
+Proof.
+  intros ls fl lo hi exlo exhi HLS HFL. unfold ends_ls.
+  pose proof (lowp_spec ls fl lo exlo HLS HFL) as HL.
+  pose proof (highp_spec ls fl hi exhi HLS HFL) as HH.
+  destruct HLS as [_ [_ Hss]].
+  destruct (lowp_ls ls fl lo exlo) as [[j1 o1]|]; simpl in HL.
+  2:{ intros x Hx [C _]. apply (HL x); auto. }
+  destruct (highp_ls ls fl hi exhi) as [[j2 o2]|]; simpl in HH.
+  2:{ intros x Hx [_ C]. apply (HH x); auto. }
+  destruct HL as [el [Hel [Lel Lmin]]]. destruct HH as [eh [Heh [Heh' Hmax]]].
+  set (test := if (j1 =? j2)%nat then (o2 <? o1)%nat else key_at V ls (j2, o2) <? key_at V ls (j1, o1)).
+  assert (Ht: test = true <-> fst eh < fst el).
+  { subst test. destruct (Nat.eqb_spec j1 j2) as [->|Hn].
+    - pose proof (entry_gidx _ _ _ _ Hel) as G1. pose proof (entry_gidx _ _ _ _ Heh) as G2.
+      unfold gidx in *. simpl in *. rewrite Nat.ltb_lt. split; intros C.
+      + apply (ss_nth_lt _ _ _ _ _ Hss G2 G1). lia.
+      + pose proof (ss_nth_lt_inv _ _ _ _ _ Hss G2 G1 C). lia.
+    - rewrite (key_at_entry _ _ _ Hel), (key_at_entry _ _ _ Heh). apply Z.ltb_lt. }
+  simpl fst. simpl snd.
+  assert (Hgoal: ends_spec ls (Lpred (concat ls) lo exlo) (Hpred (concat ls) hi exhi)
+            (if test then None else Some ((j1, o1), (j2, o2)))).
+  { destruct test.
+    - assert (C: fst eh < fst el) by (apply Ht; auto).
+      intros x Hx [C1 C2]. specialize (Lmin x Hx C1). specialize (Hmax x Hx C2). lia.
+    - assert (C: ~ fst eh < fst el) by (rewrite <- Ht; discriminate).
+      exists el, eh. repeat split; auto; try lia.
+      + apply Lmin; tauto.
+      + apply Hmax; tauto.
+      + eapply Lpred_up; eauto. tauto.
+      + eapply Hpred_down; eauto. tauto. }
+  subst test. destruct (j1 =? j2)%nat.
+  - destruct (o2 <? o1)%nat; exact Hgoal.
+  - destruct (key_at V ls (j2, o2) <? key_at V ls (j1, o1)); exact Hgoal.
+Qed.
+
+Lemma range_nil : forall lo hi exlo exhi, @RSpec.range V [] lo hi exlo exhi = [].
+Proof. intros [a|] [b|] [|] [|]; reflexivity. Qed.
+
+Lemma c_range_correct : forall (t : tree) (lo hi : option Z) (exlo exhi : bool),
+  wf_search V t = true ->
+  c_range V t lo hi exlo exhi = RSpec.range (contents V t) lo hi exlo exhi.
+Proof.
+  intros t lo hi exlo exhi H. destruct (wf_top t H) as [[E1 E2]|[HLS HFL]].
+  - unfold c_range, c_range_ends. rewrite E1, E2, range_nil. reflexivity.
+  - pose proof HLS as [Hnn [Hne Hss]]. rewrite <- concat_lseq. unfold c_range.
+    rewrite c_range_ends_eq by auto.
+    pose proof (ends_ls_spec _ _ lo hi exlo exhi HLS HFL) as HS.
+    destruct (ends_ls (lseq V t) (find_leaf V t) lo hi exlo exhi) as [[lp hp]|]; simpl in HS.
+    + destruct HS as [el [eh [Hel [Heh [Hle Hiff]]]]].
+      apply ss_eq.
+      * rewrite between_seg. apply ss_seg; auto.
+      * apply range_sorted; auto.
+      * intros x. rewrite (in_between _ _ _ _ _ x Hss Hel Heh), range_in by auto.
+        split; intros [Hx C]; split; auto; apply (Hiff x Hx); tauto.
+    + symmetry. apply nil_of_no_in. intros x Hx. apply range_in in Hx; auto.
+      destruct Hx as [Hx C]. apply (HS x Hx). tauto.
+Qed.
+
+(* ---------- Python minKey / maxKey ---------- *)
+Lemma py_minkey_c : forall t b, py_minkey V t b = c_minkey V t b.
+Proof.
+  intros t b. unfold py_minkey, c_minkey, c_fre, bucket_fre.
+  destruct (lseq V t) as [|l0 ls0]; auto. destruct b as [x|]; auto.
+  set (ls := l0 :: ls0).
+  destruct (bsearch V (nth_leaf V ls (find_leaf V t x)) x) as [i eq].
+  assert (E: (if eq then if false then Z.of_nat i + 1 else Z.of_nat i else Z.of_nat i) = Z.of_nat i)
+    by (destruct eq; reflexivity).
+  cbv iota. rewrite E. rewrite Nat2Z.id.
+  destruct (Nat.ltb_spec i (length (nth_leaf V ls (find_leaf V t x))));
+    destruct (Z.leb_spec 0 (Z.of_nat i)); try lia;
+    destruct (Z.ltb_spec (Z.of_nat i) (Z.of_nat (length (nth_leaf V ls (find_leaf V t x))))); try lia;
+    cbn [andb]; try reflexivity;
+    destruct (S (find_leaf V t x) <? length ls)%nat; reflexivity.
+Qed.
+
+Definition maxle (m : list (Z * V)) (x : Z) : option Z := RSpec.max_key m (Some x).
+
+Lemma filter_all : forall (f : Z * V -> bool) m, (forall y, In y m -> f y = true) -> filter f m = m.
+Proof.
+  induction m as [|a m IH]; intros H; simpl; auto.
+  rewrite (H a (or_introl eq_refl)). f_equal. apply IH. intros; apply H; right; auto.
+Qed.
+
+Lemma lastkey_app : forall B F, lastkey (B ++ F) = match lastkey F with Some k => Some k | None => lastkey B end.
+Proof.
+  intros B F. destruct F as [|z F] using rev_ind.
+  - rewrite app_nil_r. reflexivity.
+  - rewrite app_assoc, !lastkey_last. reflexivity.
+Qed.
+
+Lemma lastkey_some : forall F : list (Z * V), F <> [] -> exists k, lastkey F = Some k.
+Proof.
+  intros F H. destruct F as [|z F] using rev_ind; [congruence|]. rewrite lastkey_last. eauto.
+Qed.
+
+Lemma maxle_app_r : forall C R x, (forall y, In y R -> x < fst y) -> maxle (C ++ R) x = maxle C x.
+Proof.
+  intros C R x H. unfold maxle, RSpec.max_key. rewrite filter_app.
+  rewrite (filter_nil _ R), app_nil_r; auto. intros y Hy. apply Z.leb_gt. auto.
+Qed.
+
+Lemma maxle_app_l : forall B C x, (forall y, In y B -> fst y <= x) ->
+  maxle (B ++ C) x = match maxle C x with Some k => Some k | None => lastkey B end.
+Proof.
+  intros B C x H. unfold maxle, RSpec.max_key. rewrite filter_app.
+  rewrite (filter_all _ B) by (intros y Hy; apply Z.leb_le; auto).
+  apply lastkey_app.
+Qed.
+
+Lemma maxle_all : forall B x, (forall y, In y B -> fst y <= x) -> maxle B x = lastkey B.
+Proof.
+  intros B x H. unfold maxle, RSpec.max_key. rewrite filter_all; auto.
+  intros y Hy; apply Z.leb_le; auto.
+Qed.
+
+Lemma maxle_ex : forall m x e, In e m -> fst e <= x -> exists k, maxle m x = Some k.
+Proof.
+  intros m x e He Hx. unfold maxle, RSpec.max_key. apply lastkey_some.
+  intros E. assert (In e (filter (fun kv : Z * V => fst kv <=? x) m)).
+  { apply filter_In. split; auto. apply Z.leb_le; auto. }
+  rewrite E in H. destruct H.
+Qed.
+
+Lemma pmk_leaf : forall i l x, ssorted l -> py_maxkey_node V (Leaf i l) x = maxle l x.
+Proof.
+  intros i l x Hs. cbn [py_maxkey_node]. destruct (bsearch V l x) as [n eq] eqn:Eb.
+  pose proof (bsearch_pos _ _ _ _ Hs Eb) as BP.
+  destruct (bsearch_spec _ _ _ _ Hs Eb) as [Bi [_ [B3 _]]].
+  destruct eq.
+  - destruct (B3 eq_refl) as [e [He Hk]]. rewrite <- Hk. symmetry.
+    apply max_key_some; auto; try lia. eapply nth_error_In; eauto.
+  - destruct n as [|p].
+    + symmetry. apply max_key_none. intros y Hy. apply In_nth_error in Hy. destruct Hy as [q Hq].
+      bp_use BP q y Hq. lia.
+    + destruct (nth_error_ex l p) as [e He]; [lia|]. rewrite He. destruct e as [k v] eqn:Ee.
+      rewrite <- Ee in He. replace k with (fst e) by (subst e; reflexivity).
+      symmetry. bp_use BP p e He. apply max_key_some; auto.
+      * eapply nth_error_In; eauto.
+      * lia.
+      * intros y Hy Hyx. apply In_nth_error in Hy. destruct Hy as [q Hq].
+        bp_use BP q y Hq. apply (ss_nth_le l q p); auto. lia.
+Qed.
+
+Fixpoint pmk_kids (x : Z) (prev : option (option Z)) (l : list (Z * tree)) : option Z :=
+  match l with
+  | [] => None
+  | (_, c) :: rest =>
+    if chosen V x rest then
+      match prev, tmin V c with
+      | Some p, Some m => if x <? m then p else py_maxkey_node V c x
+      | _, _ => py_maxkey_node V c x
+      end
+    else pmk_kids x (Some (py_maxkey_node V c x)) rest
+  end.
+
+Lemma pmk_node : forall i kids x, py_maxkey_node V (Node i kids) x = pmk_kids x None kids.
+Proof.
+  intros i kids x. cbn [py_maxkey_node]. generalize (@None (option Z)).
+  induction kids as [|[s c] r IH]; intros prev; [reflexivity|].
+  cbn [pmk_kids]. rewrite <- IH. reflexivity.
+Qed.
+
+Lemma pmk_kids_cons : forall x prev s c rest,
+  pmk_kids x prev ((s, c) :: rest) =
+  if chosen V x rest then
+    match prev, tmin V c with
+    | Some p, Some m => if x <? m then p else py_maxkey_node V c x
+    | _, _ => py_maxkey_node V c x
+    end
+  else pmk_kids x (Some (py_maxkey_node V c x)) rest.
+Proof. reflexivity. Qed.
+
+Definition prev_ok (prev : option (option Z)) (B : list (Z * V)) : Prop :=
+  match prev with None => B = [] | Some p => p = lastkey B end.
+
+Lemma pmk_chosen : forall lo hi c x prev B, WF lo hi c ->
+  py_maxkey_node V c x = maxle (contents V c) x ->
+  (forall y, In y B -> fst y <= x) -> prev_ok prev B ->
+  match prev, tmin V c with
+  | Some p, Some m => if x <? m then p else py_maxkey_node V c x
+  | _, _ => py_maxkey_node V c x
+  end = maxle (B ++ contents V c) x.
+Proof.
+  intros lo hi c x prev B [W1 [W2 [W3 [W4 W5]]]] IH HB Hp.
+  rewrite maxle_app_l by auto. rewrite W5, IH.
+  destruct (contents V c) as [|[m v] cs] eqn:Ec; [congruence|]. simpl hdkey.
+  destruct prev as [p|]; simpl in Hp.
+  - subst p. destruct (Z.ltb_spec x m).
+    + replace (maxle ((m, v) :: cs) x) with (@None Z); [reflexivity|].
+      symmetry. apply max_key_none.
+      intros y [<-|Hy]; simpl; auto. apply ss_cons_inv in W2. destruct W2 as [_ W2].
+      specialize (W2 _ Hy). simpl in W2. lia.
+    + destruct (maxle_ex ((m, v) :: cs) x (m, v)) as [k Hk]; [left; auto|simpl; lia|].
+      rewrite Hk. reflexivity.
+  - subst B. destruct (maxle ((m, v) :: cs) x); reflexivity.
+Qed.
+
+Lemma pmk_kids_spec : forall hi lo l, kidsP hi lo l ->
+  Forall (fun sc : Z * tree => forall lo hi, wfs lo hi (snd sc) = true ->
+            forall x, py_maxkey_node V (snd sc) x = maxle (contents V (snd sc)) x) l ->
+  forall x prev B, (forall y, In y B -> fst y <= x) -> prev_ok prev B ->
+  pmk_kids x prev l = maxle (B ++ flat_map (fun sc => contents V (snd sc)) l) x.
+Proof.
+  intros hi lo l HP. induction HP as [lo s c Hc|lo s c s2 c2 rest Hc Hs2 HP IH];
+    intros HF x prev B HB Hprev.
+  - inversion HF as [|? ? Hh _]; subst. simpl in Hh. simpl. rewrite app_nil_r.
+    eapply pmk_chosen; eauto. apply wf_facts; eauto.
+  - inversion HF as [|? ? Hh Ht]; subst. simpl in Hh.
+    change (flat_map (fun sc : Z * tree => contents V (snd sc)) ((s, c) :: (s2, c2) :: rest))
+      with (contents V c ++ flat_map (fun sc : Z * tree => contents V (snd sc)) ((s2, c2) :: rest)).
+    rewrite pmk_kids_cons. cbn [chosen].
+    destruct (kids_facts' _ _ _ HP) as [K1 _].
+    pose proof (wf_facts _ _ _ Hc) as WFc. pose proof WFc as [C1 [C2 [C3 [C4 C5]]]].
+    destruct (Z.ltb_spec x s2) as [E|E].
+    + rewrite app_assoc, maxle_app_r.
+      * eapply pmk_chosen; eauto.
+      * intros y Hy. apply K1 in Hy. apply within_ge in Hy. lia.
+    + rewrite app_assoc. apply IH; auto.
+      * intros y Hy. apply in_app_or in Hy. destruct Hy as [Hy|Hy]; auto.
+        apply C1 in Hy. apply within_lt in Hy. lia.
+      * simpl. rewrite (Hh _ _ Hc x). rewrite lastkey_app.
+        assert (Hall: forall y, In y (contents V c) -> fst y <= x).
+        { intros y Hy. apply C1 in Hy. apply within_lt in Hy. lia. }
+        rewrite maxle_all by auto.
+        destruct (lastkey_some _ C4) as [k Hk]. rewrite Hk. reflexivity.
+Qed.
+
+Lemma pmk_spec : forall t lo hi, wfs lo hi t = true ->
+  forall x, py_maxkey_node V t x = maxle (contents V t) x.
+Proof.
+  induction t as [i l|i kids IH] using tree_ind2; intros lo hi H x.
+  - apply pmk_leaf. destruct (wf_facts _ _ _ H) as [_ [W2 _]]. exact W2.
+  - apply wfs_node_P in H. destruct H as [_ HP]. rewrite pmk_node.
+    rewrite (pmk_kids_spec _ _ _ HP IH x None []); simpl; auto. intros y [].
+Qed.
+
+Lemma py_minmax_correct : forall (t : tree) (b : option Z), wf_search V t = true ->
+  py_minkey V t b = RSpec.min_key (contents V t) b /\
+  py_maxkey V t b = RSpec.max_key (contents V t) b.
+Proof.
+  intros t b H. destruct (c_minmax_correct t b H) as [M1 M2]. split.
+  - rewrite py_minkey_c. exact M1.
+  - destruct b as [x|].
+    + unfold py_maxkey. destruct (lseq V t) as [|l0 ls0] eqn:E.
+      * destruct (wf_top t H) as [[_ E2]|[[Hnn _] _]]; [|congruence]. rewrite E2. reflexivity.
+      * unfold wf_search in H. destruct t as [|i [|sc r]]; [discriminate|discriminate|].
+        apply (pmk_spec _ _ _ H x).
+    + rewrite <- M2. unfold py_maxkey, c_maxkey. reflexivity.
+Qed.
+
+(* ---------- Bucket._range ---------- *)
+Definition lslice (l : list (Z * V)) (lo hi : option Z) (exlo exhi : bool) : list (Z * V) :=
+  let '(a, b) := py_leaf_range V l lo hi exlo exhi in slice_nat l a b.
+
+Lemma st_iff : forall l lo exlo p x, ssorted l -> nth_error l p = Some x ->
+  ((fst (py_leaf_range V l lo None exlo false) <= p)%nat <-> Lpred l lo exlo (fst x)).
+Proof.
+  intros l lo exlo p x Hs Hp. unfold py_leaf_range. destruct lo as [a|]; simpl.
+  - destruct (bsearch V l a) as [i eq] eqn:Eb.
+    pose proof (bsearch_pos _ _ _ _ Hs Eb) as BP. bp_use BP p x Hp.
+    destruct eq, exlo; simpl; lia.
+  - destruct exlo; simpl; [|split; auto; lia]. split.
+    + intros H1. destruct (nth_error_ex l 0) as [y Hy]; [pose proof (nth_error_lt _ _ _ Hp); lia|].
+      exists y. split; [eapply nth_error_In; eauto|]. apply (ss_nth_lt l 0 p); auto.
+    + intros [y [Hy Hlt]]. apply In_nth_error in Hy. destruct Hy as [q Hq].
+      pose proof (ss_nth_lt_inv _ _ _ _ _ Hs Hq Hp Hlt). lia.
+Qed.
+
+Lemma en_iff : forall l hi exhi p x, ssorted l -> nth_error l p = Some x ->
+  ((p < snd (py_leaf_range V l None hi false exhi))%nat <-> Hpred l hi exhi (fst x)).
+Proof.
+  intros l hi exhi p x Hs Hp. unfold py_leaf_range. destruct hi as [b|]; simpl.
+  - destruct (bsearch V l b) as [i eq] eqn:Eb.
+    pose proof (bsearch_pos _ _ _ _ Hs Eb) as BP. bp_use BP p x Hp.
+    destruct eq, exhi; simpl; lia.
+  - pose proof (nth_error_lt _ _ _ Hp) as Hlen.
+    destruct exhi; simpl; [|split; auto; lia]. split.
+    + intros H1. destruct (nth_error_ex l (S p)) as [y Hy]; [lia|].
+      exists y. split; [eapply nth_error_In; eauto|]. apply (ss_nth_lt l p (S p)); auto.
+    + intros [y [Hy Hlt]]. apply In_nth_error in Hy. destruct Hy as [q Hq].
+      pose proof (ss_nth_lt_inv _ _ _ _ _ Hs Hp Hq Hlt). pose proof (nth_error_lt _ _ _ Hq). lia.
+Qed.
+
+Lemma in_lslice : forall l lo hi exlo exhi x, ssorted l ->
+  (In x (lslice l lo hi exlo exhi) <->
+   In x l /\ Lpred l lo exlo (fst x) /\ Hpred l hi exhi (fst x)).
+Proof.
+  intros l lo hi exlo exhi x Hs. unfold lslice.
+  assert (E: py_leaf_range V l lo hi exlo exhi =
+             (fst (py_leaf_range V l lo None exlo false), snd (py_leaf_range V l None hi false exhi))).
+  { unfold py_leaf_range. destruct lo, hi; reflexivity. }
+  rewrite E. change (slice_nat l ?a ?b) with (seg l a b). rewrite in_seg. split.
+  - intros [p [[H1 H2] Hp]]. split; [eapply nth_error_In; eauto|]. split.
+    + apply (st_iff l lo exlo p x Hs Hp); auto.
+    + apply (en_iff l hi exhi p x Hs Hp); auto.
+  - intros [Hx [H1 H2]]. apply In_nth_error in Hx. destruct Hx as [p Hp]. exists p. split; auto. split.
+    + apply (st_iff l lo exlo p x Hs Hp); auto.
+    + apply (en_iff l hi exhi p x Hs Hp); auto.
+Qed.
+
+Lemma ss_lslice : forall l lo hi exlo exhi, ssorted l -> ssorted (lslice l lo hi exlo exhi).
+Proof.
+  intros. unfold lslice. destruct (py_leaf_range V l lo hi exlo exhi) as [a b].
+  change (slice_nat l a b) with (seg l a b). apply ss_seg; auto.
+Qed.
+
+(* ---------- _TreeItems.__iter__ ---------- *)
+Definition is_some (o : option Z) : bool := match o with None => false | Some _ => true end.
+Definition is_last (rest : leafseq) : bool := match rest with [] => true | _ => false end.
+
+Lemma py_iter_cons : forall l rest lo hi exlo exhi first done,
+  py_iter V (l :: rest) lo hi exlo exhi first done =
+  let out := lslice l lo hi (exlo && (first || is_some lo)) (exhi && (is_last rest || is_some hi)) in
+  match out with
+  | [] => if done then [] else py_iter V rest lo hi exlo exhi false true
+  | _ => out ++ py_iter V rest lo hi exlo exhi false true
+  end.
+Proof.
+  intros. cbn [py_iter]. unfold lslice, is_some, is_last.
+  destruct (py_leaf_range V l lo hi _ _) as [a b]. reflexivity.
+Qed.
+
+Lemma py_iter_sub : forall ls lo hi exlo exhi first done, ssorted (concat ls) ->
+  ssorted (py_iter V ls lo hi exlo exhi first done) /\
+  (forall x, In x (py_iter V ls lo hi exlo exhi first done) -> In x (concat ls)).
+Proof.
+  induction ls as [|l rest IH]; intros lo hi exlo exhi first done Hs.
+  - simpl. split; [apply ss_nil|auto].
+  - rewrite py_iter_cons. cbv zeta. simpl concat in *.
+    apply ss_app in Hs. destruct Hs as [Sl [Sr Sc]].
+    destruct (IH lo hi exlo exhi false true Sr) as [I1 I2].
+    set (out := lslice l lo hi (exlo && (first || is_some lo)) (exhi && (is_last rest || is_some hi))).
+    assert (Ho: forall x, In x out -> In x l) by (intros x Hx; apply in_lslice in Hx; tauto).
+    assert (So: ssorted out) by (apply ss_lslice; auto).
+    assert (G: ssorted (out ++ py_iter V rest lo hi exlo exhi false true) /\
+               forall x, In x (out ++ py_iter V rest lo hi exlo exhi false true) -> In x (l ++ concat rest)).
+    { split.
+      - apply ss_app. repeat split; auto.
+      - intros x Hx. apply in_app_or in Hx. apply in_or_app. destruct Hx; auto. }
+    destruct out as [|o out'] eqn:Eo; [|exact G].
+    destruct done; [split; [apply ss_nil|intros x []]|]. exact G.
+Qed.
+
+Lemma Hpred_suffix : forall P S hi exhi x, ssorted (P ++ S) -> In x S ->
+  (Hpred S hi exhi (fst x) <-> Hpred (P ++ S) hi exhi (fst x)).
+Proof.
+  intros P S hi exhi x Hs Hx. destruct hi as [b|]; simpl; [tauto|]. destruct exhi; [|tauto].
+  apply ss_app in Hs. destruct Hs as [_ [_ Hc]]. split.
+  - intros [y [Hy Hlt]]. exists y. split; auto. apply in_or_app; auto.
+  - intros [y [Hy Hlt]]. exists y. split; auto. apply in_app_or in Hy. destruct Hy as [Hy|Hy]; auto.
+    specialize (Hc y x Hy Hx). lia.
+Qed.
+
+Lemma Hpred_leaf : forall l rest hi exhi x, NE rest -> ssorted (l ++ concat rest) -> In x l ->
+  (Hpred l hi (exhi && (is_last rest || is_some hi)) (fst x) <->
+   Hpred (l ++ concat rest) hi exhi (fst x)).
+Proof.
+  intros l rest hi exhi x Hne Hs Hx. destruct hi as [b|].
+  - simpl is_some. rewrite orb_true_r, andb_true_r. simpl. tauto.
+  - simpl is_some. rewrite orb_false_r. destruct exhi; [|simpl; tauto].
+    destruct rest as [|l2 rest].
+    + simpl. rewrite app_nil_r. tauto.
+    + simpl. split; auto. intros _. inversion Hne as [|? ? Hl2 _]; subst.
+      destruct l2 as [|e l2]; [congruence|]. exists e. split.
+      * apply in_or_app. right. left. auto.
+      * apply ss_app in Hs. destruct Hs as [_ [_ Hc]]. apply Hc; auto. left. auto.
+Qed.
+
+Definition Lr (lo : option Z) (exlo : bool) (kx : Z) : Prop :=
+  match lo with Some a => if exlo then a < kx else a <= kx | None => True end.
+
+Lemma Lpred_later : forall l lo exlo kx, Lr lo exlo kx ->
+  Lpred l lo (exlo && (false || is_some lo)) kx.
+Proof.
+  intros l [a|] exlo kx H; simpl.
+  - rewrite andb_true_r. exact H.
+  - rewrite andb_false_r. exact I.
+Qed.
+
+Lemma py_iter_later : forall ls lo hi exlo exhi, NE ls -> ssorted (concat ls) ->
+  (forall x, In x (concat ls) -> Lr lo exlo (fst x)) ->
+  forall x, In x (py_iter V ls lo hi exlo exhi false true) <->
+            In x (concat ls) /\ Hpred (concat ls) hi exhi (fst x).
+Proof.
+  induction ls as [|l rest IH]; intros lo hi exlo exhi Hne Hs HL x.
+  - simpl. tauto.
+  - rewrite py_iter_cons. cbv zeta. simpl concat in *.
+    inversion Hne as [|? ? Hl Hne']; subst.
+    pose proof Hs as Hs'. apply ss_app in Hs'. destruct Hs' as [Sl [Sr Sc]].
+    set (out := lslice l lo hi (exlo && (false || is_some lo)) (exhi && (is_last rest || is_some hi))).
+    assert (Hout: forall x, In x out <-> In x l /\ Hpred (l ++ concat rest) hi exhi (fst x)).
+    { intros y. subst out. rewrite in_lslice by auto. split.
+      - intros [Hy [_ HH]]. split; auto. apply Hpred_leaf in HH; auto.
+      - intros [Hy HH]. split; auto. split.
+        + apply Lpred_later. apply HL. apply in_or_app; auto.
+        + apply Hpred_leaf; auto. }
+    assert (Hrec: forall x, In x (py_iter V rest lo hi exlo exhi false true) <->
+                            In x (concat rest) /\ Hpred (l ++ concat rest) hi exhi (fst x)).
+    { intros y. rewrite IH; auto.
+      - split; intros [Hy HH]; split; auto.
+        + apply (proj1 (Hpred_suffix l (concat rest) hi exhi y Hs Hy)); auto.
+        + apply (proj2 (Hpred_suffix l (concat rest) hi exhi y Hs Hy)); auto.
+      - intros z Hz. apply HL. apply in_or_app; auto. }
+    destruct out as [|o out'] eqn:Eo.
+    + split; [intros []|]. intros [Hx HH]. apply in_app_or in Hx. destruct Hx as [Hx|Hx].
+      * apply (Hout x). auto.
+      * destruct l as [|e0 l']; [congruence|].
+        apply (Hout e0). split; [left; auto|].
+        eapply Hpred_down; eauto. specialize (Sc e0 x (or_introl eq_refl) Hx). lia.
+    + rewrite in_app_iff, Hout, Hrec, in_app_iff. tauto.
+Qed.
+
+Lemma py_iter_first : forall A l R lo hi exlo exhi,
+  LS (A ++ l :: R) -> (lo = None -> A = []) ->
+  (forall a, lo = Some a -> (forall x, In x (concat A) -> fst x < a) /\
+                            (forall x, In x (concat R) -> a < fst x)) ->
+  forall x, In x (py_iter V (l :: R) lo hi exlo exhi true false) <->
+    In x (concat (A ++ l :: R)) /\ Lpred (concat (A ++ l :: R)) lo exlo (fst x) /\
+    Hpred (concat (A ++ l :: R)) hi exhi (fst x).
+Proof.
+  intros A l R lo hi exlo exhi [_ [Hne Hss]] HN HS x.
+  rewrite concat_app, concat_cons in *.
+  pose proof Hss as Hss'. apply ss_app in Hss'. destruct Hss' as [SA [S2 SAX]].
+  pose proof S2 as S2'. apply ss_app in S2'. destruct S2' as [Sl [SR SlR]].
+  unfold NE in Hne. apply Forall_app in Hne. destruct Hne as [_ Hne].
+  inversion Hne as [|? ? Hl HneR]; subst.
+  assert (LA: forall y, In y l -> (Lpred l lo exlo (fst y) <-> Lpred (concat A ++ l ++ concat R) lo exlo (fst y))).
+  { intros y Hy. destruct lo as [a|]; simpl; [tauto|]. destruct exlo; [|tauto].
+    rewrite (HN eq_refl) in *. simpl. split.
+    - intros [z [Hz Hlt]]. exists z. split; auto. apply in_or_app; auto.
+    - intros [z [Hz Hlt]]. exists z. split; auto. apply in_app_or in Hz. destruct Hz as [Hz|Hz]; auto.
+      specialize (SlR y z Hy Hz). lia. }
+  assert (LB: forall y, In y (concat R) -> Lpred (concat A ++ l ++ concat R) lo exlo (fst y)).
+  { intros y Hy. destruct lo as [a|]; simpl.
+    - destruct (HS a eq_refl) as [_ H2]. specialize (H2 y Hy). destruct exlo; lia.
+    - destruct exlo; auto. destruct l as [|e l']; [congruence|]. exists e. split.
+      + apply in_or_app. right. left. auto.
+      + apply SlR; auto. left; auto. }
+  assert (LC: forall y, In y (concat A) -> ~ Lpred (concat A ++ l ++ concat R) lo exlo (fst y)).
+  { intros y Hy. destruct lo as [a|]; simpl.
+    - destruct (HS a eq_refl) as [H1 _]. specialize (H1 y Hy). destruct exlo; lia.
+    - rewrite (HN eq_refl) in Hy. destruct Hy. }
+  assert (HR: forall y, In y (py_iter V R lo hi exlo exhi false true) <->
+                        In y (concat R) /\ Hpred (concat R) hi exhi (fst y)).
+  { apply py_iter_later; auto. intros y Hy. destruct lo as [a|]; simpl; auto.
+    destruct (HS a eq_refl) as [_ H2]. specialize (H2 y Hy). destruct exlo; lia. }
+  rewrite py_iter_cons. cbv zeta. simpl orb. rewrite andb_true_r.
+  set (out := lslice l lo hi exlo (exhi && (is_last R || is_some hi))).
+  assert (Ho: forall y, In y out <-> In y l /\ Lpred l lo exlo (fst y) /\
+                 Hpred l hi (exhi && (is_last R || is_some hi)) (fst y))
+    by (intros y; apply in_lslice; auto).
+  replace (match out with [] => py_iter V R lo hi exlo exhi false true
+           | _ :: _ => out ++ py_iter V R lo hi exlo exhi false true end)
+    with (out ++ py_iter V R lo hi exlo exhi false true) by (destruct out; reflexivity).
+  rewrite in_app_iff, Ho, HR. split.
+  - intros [[Hx [H1 H2]]|[Hx H2]].
+    + split; [apply in_or_app; right; apply in_or_app; auto|]. split.
+      * apply LA; auto.
+      * apply (proj1 (Hpred_suffix (concat A) (l ++ concat R) hi exhi x Hss (in_or_app _ _ _ (or_introl Hx)))).
+        apply (proj1 (Hpred_leaf l R hi exhi x HneR S2 Hx)). exact H2.
+    + split; [apply in_or_app; right; apply in_or_app; auto|]. split.
+      * apply LB; auto.
+      * apply (proj1 (Hpred_suffix (concat A) (l ++ concat R) hi exhi x Hss (in_or_app _ _ _ (or_intror Hx)))).
+        apply (proj1 (Hpred_suffix l (concat R) hi exhi x S2 Hx)). exact H2.
+  - intros [Hx [H1 H2]]. apply in_app_or in Hx. destruct Hx as [Hx|Hx].
+    + exfalso. apply (LC x Hx). exact H1.
+    + apply (proj2 (Hpred_suffix (concat A) (l ++ concat R) hi exhi x Hss Hx)) in H2.
+      apply in_app_or in Hx. destruct Hx as [Hx|Hx].
+      * left. split; auto. split; [apply LA; auto|].
+        apply (proj2 (Hpred_leaf l R hi exhi x HneR S2 Hx)). exact H2.
+      * right. split; auto.
+        apply (proj2 (Hpred_suffix l (concat R) hi exhi x S2 Hx)). exact H2.
+Qed.
+
+Lemma py_range_correct : forall (t : tree) (lo hi : option Z) (exlo exhi : bool),
+  wf_search V t = true ->
+  py_range V t lo hi exlo exhi = RSpec.range (contents V t) lo hi exlo exhi.
+Proof.
+  intros t lo hi exlo exhi H. destruct (wf_top t H) as [[E1 E2]|[HLS HFL]].
+  - unfold py_range. rewrite E1, E2, range_nil. rewrite skipn_nil. reflexivity.
+  - assert (D: exists A l R, lseq V t = A ++ l :: R /\
+              length A = match lo with None => O | Some a => find_leaf V t a end /\
+              (lo = None -> A = []) /\
+              (forall a, lo = Some a -> (forall x, In x (concat A) -> fst x < a) /\
+                                        (forall x, In x (concat R) -> a < fst x))).
+    { destruct lo as [a|].
+      - destruct (HFL a) as [A [l [R [E [Ej [HA HR]]]]]]. exists A, l, R.
+        split; [auto|]. split; [auto|]. split; [discriminate|].
+        intros a' Ea. inversion Ea; subst. split; auto.
+      - destruct (LS_first _ HLS) as [e [l [r E]]]. exists [], (e :: l), r.
+        split; [auto|]. split; [auto|]. split; [auto|]. intros a' Ea. discriminate. }
+    destruct D as [A [l [R [E [Ej [HN HS]]]]]].
+    unfold py_range. cbv zeta. rewrite <- Ej, <- concat_lseq, E, split_skipn.
+    rewrite E in HLS. pose proof HLS as [_ [_ Hss]].
+    apply ss_eq.
+    + apply py_iter_sub. rewrite concat_app in Hss. apply ss_app in Hss. tauto.
+    + apply range_sorted; auto.
+    + intros x. rewrite range_in by auto. apply py_iter_first; auto.
+Qed.
+
+(* ---------- BTreeItems: length and seek ---------- *)
+Lemma NE_nth : forall ls j, NE ls -> (j < length ls)%nat -> nth_leaf V ls j <> [].
+Proof.
+  intros ls j H Hj. unfold NE in H. rewrite Forall_forall in H. apply H.
+  unfold nth_leaf. apply nth_In. auto.
+Qed.
+
+Lemma firstn_split : forall (ls : leafseq) j1 j2, (j1 <= j2)%nat ->
+  firstn j2 ls = firstn j1 ls ++ firstn (j2 - j1) (skipn j1 ls).
+Proof.
+  induction ls as [|l r IH]; intros j1 j2 H.
+  - rewrite skipn_nil, !firstn_nil. reflexivity.
+  - destruct j1 as [|j1]; [simpl; rewrite Nat.sub_0_r; reflexivity|].
+    destruct j2 as [|j2]; [lia|]. simpl. f_equal. apply IH. lia.
+Qed.
+
+Lemma c_len_eq : forall ls st lp hp, it_first st = lp -> it_last st = hp ->
+  (fst lp <= fst hp)%nat ->
+  c_len V ls st = (gidx ls hp + 1 - gidx ls lp)%nat.
+Proof.
+  intros ls st [j1 o1] [j2 o2] E1 E2 Hle. unfold c_len, gidx. rewrite E1, E2. simpl in *.
+  destruct (Nat.eqb_spec j1 j2) as [->|Hn]; [lia|].
+  rewrite (firstn_split ls j1 j2 Hle), concat_app, app_length. lia.
+Qed.
+
+Definition ItInv (ls : leafseq) (lp hp : nat * nat) (st : items) : Prop :=
+  it_first st = lp /\ it_last st = hp /\ (exists e, entry ls (it_cur st) = Some e) /\
+  (gidx ls lp <= gidx ls (it_cur st) <= gidx ls hp)%nat /\
+  it_pseudo st = Z.of_nat (gidx ls (it_cur st)) - Z.of_nat (gidx ls lp).
 
 End RP.
